@@ -23,4 +23,28 @@ META = {
  },
 }
 
+ACC_TB = [KERNEL, EXTRACT, HARNESS, BLAKE,
+          'verif hooks in /repo/consensus/verif_hooks.go (thin wrappers around elementLeaf.hash, proofRoot, containsLeaf, applyBlock, revertBlock, updateElementProof)',
+          'the model is the *true forest*: all leaves ever added, built naively (Merkle/Acc.v); Go\'s incremental addLeaves/updateLeaves/updateProof/treeGrowth are tied to it by comparing roots, leaf count and every maintained proof after each apply/revert']
+META['C05'] = {
+  'rule': ('accumulator-level histories driven through the verif hooks: (a) every leaf count 0..96 (thorough 0..300) x added in {0,1,2,3,5,9} with up to 3 rewritten leaves, '
+           'each optionally reverted; (b) random histories of 3-12 steps mixing blocks (0-6 rewritten leaves, 0-80 added) and reverts of depth 1-4; after every step the '
+           'implementation\'s NumLeaves, tree roots and the proof of every tracked leaf (maintained only through UpdateElementProof) are compared with the naive forest of the model; '
+           'plus elementLeaf.hash and proofRoot on random 64-bit indices. Oracle on the Go side: each maintained proof verifies (containsLeaf) with the current spent flag, and proofs after a revert equal the pre-block proofs. '
+           'non-trivial = history with more than one block; distinct by hash of the case line'),
+  'trusted_base': ACC_TB,
+  'assumptions': ['the refinement "Go\'s incremental proof maintenance (treeGrowth windows, updateProof merge-height patching) = naive forest paths" is established by correspondence on the generated histories, not by theorem; '
+                  'the theorems cover: naive proofs verify for every history (C05_history), verified proofs are forest paths (soundness mod node collision), carry chain = naive roots, leaf count, updateLeaves recursion root, updateProof single-update lemma'],
+  'level_text': 'Proved in Coq for all histories and sizes: the naive forest proof of every leaf verifies against the accumulator roots and carries the current element hash/index/spent flag; any verifying proof is the forest path (or a node-hash collision is exhibited); addLeaves\' carry chain computes the naive roots and leaf count; updateLeaves\' recursion returns the updated tree root; the updateProof patch lemma. The Go implementation (incl. revert) is tied to the naive forest by recomputing roots and every maintained proof for each generated history (partial: the incremental proof-maintenance refinement itself is correspondence, not theorem).',
+}
+META['C04'] = {
+  'rule': ('same accumulator histories as C05; per history 6-8 membership queries against the real containsLeaf: genuine leaf, spent flag flipped, element hash altered, another leaf\'s proof, another index, '
+           'index altered only in bits above the tree height, proof hash altered, proof too short/long, never-created element, stale (since rewritten) contents with a fresh proof; '
+           'the model answers the same queries over the naive forest; oracle: genuine accepted, every mutation rejected'),
+  'trusted_base': ACC_TB + ['leaf hash compositions of the element kinds (siacoinLeaf ... chainIndexLeaf) are abstracted as the 32-byte element hash here; their field coverage is C12/C11 territory'],
+  'assumptions': ['"or NodeCollision/LeafCollision": a concrete colliding pair of the 65-byte node hash or the 42-byte leaf hash is exhibited by the proof instead of assuming collision resistance',
+                  'v1 supplement / ValidateTransactionElements entry points are exercised by the ledger checks; here containsLeaf is driven directly'],
+  'level_text': 'Proved in Coq for every history: containsLeaf accepts a (element hash, index, spent, proof) only if exactly that leaf is the current leaf at that index of the true forest and the proof is its forest path, otherwise a concrete hash collision is exhibited; live leaves are accepted; wrong-height proofs rejected. Tied to the Go containsLeaf by recomputation of genuine and mutated membership queries on generated histories.',
+}
+
 NOT_YET = {}
